@@ -141,6 +141,16 @@ def templates(tier, seed):
                     if si == 0:
                         # the element has to wait for a later one (it is solved on a retry): same result, offsets applied once
                         tds.append(dict(fam="pairs", shape=shape, xp=list(xp), yp=list(yp), sp=si, delta="dxdy", held=True))
+    # one axis fully given, the other with a length only or nothing at all (SVG default position 0: the corner of a rect, the
+    # centre of a circle / ellipse), with and without dx / dy / dxy
+    for shape in ("rect", "circle", "ellipse"):
+        for full_axis in ("x", "y", "none"):
+            for pair in PAIRS:
+                for delta in (None, "dx", "dy", "dxdy", "dxy"):
+                    for sizeform in ("wh", "long"):
+                        if full_axis == "none" and pair != PAIRS[0]:
+                            continue
+                        tds.append(dict(fam="open-axis", shape=shape, full=full_axis, pair=list(pair), delta=delta, sizeform=sizeform))
     # circles: one full axis plus a single value on the other axis
     for full_axis in ("x", "y"):
         for p in PAIRS:
@@ -272,6 +282,49 @@ def build(td, wrong=False):
         doc = f"<svg><circle {attrs}/></svg>"
         return Template(f"circle3/{full}/{''.join(pair)}/{single}", doc, vars_, mk_check("circle", bx, wrong), family="circle-three-point", role="C11/circle3",
                         assume=None if asm == "true" else asm, cap=8)
+    if fam == "open-axis":
+        shape, full, pair, delta, sf = td["shape"], td["full"], tuple(td["pair"]), td["delta"], td["sizeform"]
+        vars_ = [(4, *POS), (30, *POS), (20, *LEN), (12, *LEN)]       # two position-like values, width, height
+        W_, H_ = "v2", "v3"
+        if shape == "circle":
+            H_ = W_
+        # attribute names per axis
+        nm = {"x": {"s": "x" if shape != "line" else "x1", "e": "x2", "m": "cx"}, "y": {"s": "y", "e": "y2", "m": "cy"}}
+        attrs = []
+        ext = {}
+        for ax in ("x", "y"):
+            L = W_ if ax == "x" else H_
+            if ax == full:
+                qs = [q for q in pair]
+                # the length comes from the size attributes below; the axis gets ONE position value besides (start, end or centre)
+                q = next((q for q in qs if q != "l"), "s")
+                attrs.append(f'{nm[ax][q]}="[[{0 if ax == "x" else 1}]]"')
+                v = "v0" if ax == "x" else "v1"
+                ext[ax] = {"s": (v, plus(v, L)), "e": (minus(v, L), v), "m": (minus(v, half(L)), plus(v, half(L)))}[q]
+            else:
+                ext[ax] = ("0.0", L) if shape == "rect" else (neg(half(L)), half(L))
+        if shape == "circle":
+            attrs.append('wh="[[2]]"' if sf == "wh" else 'r="{{[[2]] / 2}}"')
+        elif shape == "ellipse":
+            attrs.append('wh="[[2]] [[3]]"' if sf == "wh" else 'rx="{{[[2]] / 2}}" ry="{{[[3]] / 2}}"')
+        else:
+            attrs.append('wh="[[2]] [[3]]"' if sf == "wh" else 'width="[[2]]" height="[[3]]"')
+        bx = G.Box(ext["x"][0], ext["y"][0], ext["x"][1], ext["y"][1])
+        if delta:
+            kx = len(vars_)
+            vars_ += [(5, *DLT), (-7, *DLT)]
+            dx, dy = f"v{kx}", f"v{kx + 1}"
+            if delta == "dx":
+                attrs.append(f'dx="[[{kx}]]"'); dy = "0.0"
+            elif delta == "dy":
+                attrs.append(f'dy="[[{kx + 1}]]"'); dx = "0.0"
+            elif delta == "dxdy":
+                attrs.append(f'dx="[[{kx}]]" dy="[[{kx + 1}]]"')
+            else:
+                attrs.append(f'dxy="[[{kx}]] [[{kx + 1}]]"')
+            bx = bx.translate(dx, dy)
+        doc = f"<svg><{shape} {' '.join(attrs)}/></svg>"
+        return Template(f"open-axis/{shape}/{full}/{''.join(pair)}/{delta}/{sf}", doc, vars_, mk_check(shape, bx, wrong), family=f"open-axis-{shape}", role=f"C11/open-axis/{shape}", cap=8)
     if fam == "single":
         shape, form = td["shape"], td["form"]
         # one value given to a two-value shorthand means the same value on both axes
